@@ -69,6 +69,19 @@ example : ∃ evs, (step (fun b => b) (fun _ _ (_ : Unit) => true)
   exact ⟨_, rfl, rfl⟩
 
 /-! ### non-vacuity (the model RUN in the kernel on a concrete history, toy hash) -/
+/-- the announcement does not look at the migration window: between the owner's `upgrade` and `migrate` a call is accepted,
+    refused and announced exactly as at any other time (and it leaves the window as it is) -/
+theorem announcement_ignores_migration_window (st : State) (b : Bool) (auths : List Addr) (caller : Addr)
+    (chain dest payload : Bytes) :
+    (match callContract H { st with migrating := b } auths caller chain dest payload with
+      | .ok (st', evs) => some (evs, st'.migrating)
+      | .error _ => none) =
+    (match callContract H st auths caller chain dest payload with
+      | .ok (_, evs) => some (evs, b)
+      | .error _ => none) := by
+  unfold callContract
+  by_cases h : caller ∈ auths <;> simp [h]
+
 section NonVacuity
 open Cgp.Toy
 
@@ -99,6 +112,19 @@ theorem callContract_history_nonvacuous :
     simp only [opsO, List.mem_cons, List.not_mem_nil, or_false] at h
     rcases h with rfl | rfl | rfl <;> exact ⟨_, _, _, _, _, rfl⟩
   · decide +kernel
+
+/-- a history with calls INSIDE the migration window: the owner upgrades, an authorised call is announced (one event), an
+    unauthorised one is refused, the owner migrates, a call is announced again; a migration with no open window is refused -/
+theorem window_history_nonvacuous :
+    ∃ w0, constructed H0 owner0 owner0 [1] 0 0 [ws0] 5 = some w0 ∧
+      (run H0 V0 w0 [.migrate [owner0], .upgrade [owner0], .callContract [app0] app0 [100] [101] [1, 2, 3],
+          .callContract [] app0 [100] [101] [1, 2, 3], .migrate [owner0], .callContract [app0] app0 [100] [101] [7]]).2.map gwErr =
+        [some .migrationNotAllowed, none, none, some .unauthorized, none, none] ∧
+      (run H0 V0 w0 [.migrate [owner0], .upgrade [owner0], .callContract [app0] app0 [100] [101] [1, 2, 3],
+          .callContract [] app0 [100] [101] [1, 2, 3], .migrate [owner0], .callContract [app0] app0 [100] [101] [7]]).2.map gwEvents =
+        [0, 0, 1, 0, 0, 1] := by
+  refine ⟨_, rfl, ?_⟩
+  decide +kernel
 
 end NonVacuity
 
